@@ -166,6 +166,17 @@ OfBigOK(in, o) ==
           /\ ToSet(o.sget1[j]) = (IF inside THEN Get1D(s, i) ELSE {})
           /\ (inside => ToSet(o.get[j]) = GetD(s, i) /\ ToSet(o.get1[j]) = Get1D(s, i))
 TraceOfBig == IsEvent("ofbig") /\ OfBigOK(Ev.in, Ev.out)
+\* Get / Get1 / SafeGet / SafeGet1 on sparse bitmaps of MORE than 2^31 bits (2^25 + 1 .. 2^26 + 3 words; thorough tier):
+\* every int32 position lies inside or is negative; "inside" by division (W * nw is beyond TLC's integers)
+GetBigOK(in, o) ==
+    LET s == S(in.bm)  nw == in.bm.nw IN
+    /\ IsAsc(in.bm.ones) /\ \A j \in DOMAIN in.bm.ones : in.bm.ones[j] >= 0 /\ in.bm.ones[j] \div W < nw
+    /\ \A j \in DOMAIN in.probes :
+          LET i == in.probes[j]  inside == i >= 0 /\ i \div W < nw IN
+          /\ ToSet(o.sget[j])  = (IF inside THEN GetD(s, i) ELSE {})
+          /\ ToSet(o.sget1[j]) = (IF inside THEN Get1D(s, i) ELSE {})
+          /\ (inside => ToSet(o.get[j]) = GetD(s, i) /\ ToSet(o.get1[j]) = Get1D(s, i))
+TraceGetBig == IsEvent("getbig") /\ GetBigOK(Ev.in, Ev.out)
 
 \* OfMany: every segment ascending; a position may exceed its segment's size (the shifted concatenation
 \* need not be ascending then) as long as every bit fits the words Of allots: ceil(max(sum of sizes,
@@ -262,6 +273,6 @@ TraceFmt == IsEvent("fmt") /\ FmtOK(Ev.in, Ev.out)
 
 TraceInit == l = 1
 TraceNext == TraceMasks \/ TraceRank \/ TraceRankL \/ TraceSelect \/ TraceSelectL \/ TraceScan \/ TraceOf \/ TraceOfMany
-             \/ TraceToArray \/ TraceJoin \/ TraceJoinBig \/ TraceSlice \/ TraceSliceBig \/ TracePerBig \/ TraceOfBig \/ TraceScanBig \/ TraceSelSingle \/ TraceSelU64 \/ TraceFmt
+             \/ TraceToArray \/ TraceJoin \/ TraceJoinBig \/ TraceSlice \/ TraceSliceBig \/ TracePerBig \/ TraceOfBig \/ TraceGetBig \/ TraceScanBig \/ TraceSelSingle \/ TraceSelU64 \/ TraceFmt
 TraceSpec == TraceInit /\ [][TraceNext]_l
 ============================================================================
